@@ -81,24 +81,34 @@ Section DeepEval.
     | _ => None
     end.
 
+  Definition leaf2 (f : R -> R -> R) (vs : list rval) : option rval :=
+    match vs with
+    | [RLeaf _ a; RLeaf _ b] => Some (RLeaf R (f a b))
+    | _ => None
+    end.
+
   Definition deval_node (i : Z) (o : op) (vs : list rval) : option rval :=
-    match o, vs with
-    | OZeros (TScalar _), [] | OZeros (TArray _ _), [] => Some (RLeaf R r0)
-    | OOnes (TScalar _), [] | OOnes (TArray _ _), [] => Some (RLeaf R one)
-    | OConstant (TScalar _) v, [] | OConstant (TArray _ _) v, [] => Some (RLeaf R (catom v))
-    | OPRF _ _, [_] => Some (RLeaf R (atom i))
-    | OAdd, [RLeaf _ a; RLeaf _ b] => Some (RLeaf R (radd a b))
-    | OSubtract, [RLeaf _ a; RLeaf _ b] => Some (RLeaf R (rsub a b))
-    | OMultiply, [RLeaf _ a; RLeaf _ b] => Some (RLeaf R (rmul a b))
-    | ODot, [RLeaf _ a; RLeaf _ b]
-    | OMatmul, [RLeaf _ a; RLeaf _ b]
-    | OGemm _ _, [RLeaf _ a; RLeaf _ b] => Some (RLeaf R (bil o a b))
-    | ONOP, [v] => Some v
-    | OCreateTuple, l => Some (RTup R l)
-    | OTupleGet j, [RTup _ l] => match znth l j with Ok v => Some v | _ => None end
-    | OCustom name, _ => match gadget_of_name name with Some g => gadget_sem g vs | None => None end
-    | _, [RLeaf _ a] => if is_lin_op o then Some (RLeaf R (lin o a)) else None
-    | _, _ => None
+    match o with
+    | OZeros t => match vs with [] => if is_leaf t then Some (RLeaf R r0) else None | _ => None end
+    | OOnes t => match vs with [] => if is_leaf t then Some (RLeaf R one) else None | _ => None end
+    | OConstant t v => match vs with [] => if is_leaf t then Some (RLeaf R (catom v)) else None | _ => None end
+    | OPRF _ _ => match vs with [_] => Some (RLeaf R (atom i)) | _ => None end
+    | OAdd => leaf2 radd vs
+    | OSubtract => leaf2 rsub vs
+    | OMultiply => leaf2 rmul vs
+    | ODot | OMatmul | OGemm _ _ => leaf2 (bil o) vs
+    | ONOP => match vs with [v] => Some v | _ => None end
+    | OCreateTuple => Some (RTup R vs)
+    | OTupleGet j =>
+        match vs with
+        | [RTup _ l] => match znth l j with Ok v => Some v | _ => None end
+        | _ => None
+        end
+    | OCustom name => match gadget_of_name name with Some g => gadget_sem g vs | None => None end
+    | _ =>
+        if is_lin_op o then
+          match vs with [RLeaf _ a] => Some (RLeaf R (lin o a)) | _ => None end
+        else None
     end.
 
   (* evaluation state: values of the nodes so far, inputs not yet consumed *)
